@@ -8,6 +8,7 @@
 #include <string.h>
 #include "log_stub.h"
 #include "libc_models.h"
+#define CJ_DEPTH 1   /* ids are leaves, stub responses childless */
 #include "cjson_model.h"
 #include "fetch.c"
 #include "posix/jet_string.c"
@@ -25,10 +26,11 @@ bool has_access(group_t has, group_t wants) { return (has & wants) != 0; }
 bool element_is_fetch_only(const struct element *e) { (void)e; return false; }
 const struct list_head *get_peer_list(void) { return NULL; }
 static unsigned verif_err_responses;
-static cJSON *verif_last_err;
+static cJSON *verif_last_err; static const cJSON *verif_err_request;
 cJSON *create_error_response_from_request(const struct peer *p, const cJSON *request, int code, const char *tag, const char *reason)
 {
-	(void)p; (void)request; (void)code; (void)tag; (void)reason;
+	(void)p; (void)code; (void)tag; (void)reason;
+	verif_err_request = request;
 	verif_err_responses++;
 	verif_last_err = cJSON_CreateObject();
 	return verif_last_err;
@@ -146,4 +148,46 @@ void h_match_conj(void)
 	VERIF_COVER(!fetch_all && n == 3 && r != 0, "three matchers accept");
 	VERIF_COVER(!fetch_all && n == 3 && r == 0 && verif_m_result[0] != 0 && verif_m_result[1] != 0, "third rejects");
 	VERIF_COVER(fetch_all, "fetch all");
+}
+
+/* ---- fetch.add: add_fetch_to_peer - fetch ids are unique per peer; every refusal answers the REQUEST ---------- */
+void h_fetch_add(void)
+{
+	struct peer p;
+	INIT_LIST_HEAD(&p.fetch_list);
+	/* the peer already holds one fetch whose id is the number 7 or the string "a" */
+	struct fetch *old = calloc(1, sizeof(*old));
+	__CPROVER_assume(old != NULL);
+	cJSON oldid; oldid.type = nondet_bool() ? cJSON_Number : cJSON_String; oldid.valueint = 7; oldid.valuedouble = 7; oldid.valuestring = "a"; oldid.child = NULL; oldid.next = NULL; oldid.string = NULL;
+	old->fetch_id = &oldid; old->peer = &p; old->number_of_matchers = 1;
+	bool has_old = nondet_bool();
+	if (has_old) list_add_tail(&old->next_fetch, &p.fetch_list);
+	/* request: {params: {id: <number 7 | number 8 | string "a" | string "b" | true>, [match: ...]}} */
+	cJSON request, params, id, match;
+	unsigned k = nondet_uint();
+	__CPROVER_assume(k < 5);
+	id.type = k < 2 ? cJSON_Number : (k < 4 ? cJSON_String : cJSON_True);
+	id.valueint = k == 0 ? 7 : 8; id.valuedouble = id.valueint; id.valuestring = k == 2 ? "a" : "b"; id.string = "id"; id.child = NULL;
+	bool has_id = nondet_bool(), has_match = nondet_bool(), has_params = nondet_bool();
+	match.type = cJSON_Object; match.string = "match"; match.child = NULL; match.next = NULL; match.valuestring = NULL;
+	id.next = has_match ? &match : NULL;
+	params.type = cJSON_Object; params.string = "params"; params.next = NULL; params.valuestring = NULL; params.child = has_id ? &id : (has_match ? &match : NULL);
+	request.type = cJSON_Object; request.string = NULL; request.next = NULL; request.valuestring = NULL; request.child = has_params ? &params : NULL;
+	struct fetch *f = NULL; cJSON *response = NULL;
+	int r = add_fetch_to_peer(&p, &request, &f, &response);
+	bool same_id = has_old && has_id && ((k == 0 && oldid.type == cJSON_Number) || (k == 2 && oldid.type == cJSON_String));
+	bool ok = has_params && !has_match && has_id && k < 4 && !same_id;
+	__CPROVER_assert((r == 0) == ok, "C02.fetch.accepted-iff-well-formed-and-the-fetch-id-is-not-in-use");
+	if (r == 0) {
+		__CPROVER_assert(f != NULL && p.fetch_list.prev == &f->next_fetch && f->peer == &p && f->fetch_id != &id && f->fetch_id->type == id.type && verif_err_responses == 0, "C01.fetch.new-fetch-registered-with-a-copy-of-its-id");
+		list_del(&f->next_fetch); free_fetch(f);
+	} else {
+		__CPROVER_assert(r == -1 && f == NULL && verif_err_responses == 1 && verif_err_request == &request, "C02.fetch.refusal-answers-the-request-not-its-parameters");
+		__CPROVER_assert(has_old ? (p.fetch_list.next == &old->next_fetch && p.fetch_list.prev == &old->next_fetch) : list_empty(&p.fetch_list), "C01.fetch.refused-fetch-registers-nothing");
+		if (response) cJSON_Delete(response);
+	}
+	free(old);
+	VERIF_COVER(r == -1 && same_id, "fetch id already in use");
+	VERIF_COVER(r == 0 && has_old, "second fetch with another id");
+	VERIF_COVER(r == -1 && has_match, "deprecated match");
 }
